@@ -884,7 +884,12 @@ class TemplateModel(object):
         assert template.ndim == 2
         channel_ids_, amplitude, best_channel = self._find_best_channels(
             template, amplitude_threshold=amplitude_threshold)
-        channel_ids = channel_ids if channel_ids is not None else channel_ids_
+        if channel_ids is None:
+            channel_ids = channel_ids_
+        else:
+            # Explicit channels: the amplitudes are those of the requested channels.
+            channel_ids = np.asarray(channel_ids)
+            amplitude = (template.max(axis=0) - template.min(axis=0))[channel_ids]
         template = template[:, channel_ids]
         assert template.ndim == 2
         assert template.shape[1] == channel_ids.shape[0]
